@@ -229,6 +229,15 @@ func (x *Exec) callCommon(fr *Frame, st *State, val ssa.Value, cc *ssa.CallCommo
 		}
 	}
 	if name == "" {
+		if dt, lk := x.dispatchTableOf(cc.Value); dt != nil {
+			return x.dispatchCall(fr, st, dt, lk, rt, pos)
+		}
+		// calling a nil function value panics
+		if fv := x.value(fr, cc.Value); fv.Cl == nil && fv.S != "" {
+			x.check(fr, st, pos, "nil-func-call", "(not (= "+fv.S+" 0))")
+		}
+	}
+	if name == "" {
 		// a function-valued struct field declared pure in a contract file
 		// (`func field:T.f` + `pure`): arbitrary result, no effect on the heap
 		if what, ok := x.pureFieldFunc(cc); ok {
@@ -563,14 +572,30 @@ func (x *Exec) atCall(fr *Frame, st *State, name string, ord int, callee *ssa.Fu
 	}
 	fr.seenCalls[fmt.Sprintf("%s#%d", name, ord)] = true
 	for i, a := range atc.Asserts {
-		f := x.evalClauseCall(fr, a, st, callee, args)
 		oname := fmt.Sprintf("%s#at-call.%s.%d.%d", funcKey(fr.fn), name, ord, i+1)
 		if a.Tag != "" {
 			oname = fmt.Sprintf("%s#%s@%s.%d", funcKey(fr.fn), a.Tag, name, ord)
 		}
+		// a clause that can no longer be evaluated against the code (it names a variable or
+		// a call that is gone) is an obligation that fails, with the reason attached - the
+		// function's other obligations are still generated
+		f, src := func() (f, src string) {
+			defer func() {
+				if r := recover(); r != nil {
+					ce, ok := r.(contractError)
+					if !ok {
+						panic(r)
+					}
+					f, src = "false", a.Src+"  [clause cannot be evaluated against the current code: "+string(ce)+"]"
+				}
+			}()
+			return x.evalClauseCall(fr, a, st, callee, args), a.Src
+		}()
 		x.addObl(&Obligation{Name: oname, Kind: "assert", Tag: a.Tag,
-			Func: funcKey(fr.fn), Pos: x.prog.pos(pos), Guard: st.guard, Formula: f, Src: a.Src})
-		x.assume(st.guard, f)
+			Func: funcKey(fr.fn), Pos: x.prog.pos(pos), Guard: st.guard, Formula: f, Src: src})
+		if f != "false" {
+			x.assume(st.guard, f)
+		}
 	}
 	for _, a := range atc.Assumes {
 		f := x.evalClauseCall(fr, a, st, callee, args)
@@ -908,6 +933,12 @@ func (x *Exec) collectMods(fn *ssa.Function, blocks map[*ssa.BasicBlock]bool, se
 						if _, ok := x.pureFieldFunc(cc); ok {
 							continue
 						}
+						if dt, _ := x.dispatchTableOf(cc.Value); dt != nil {
+							if x.dispatchMods(dt, acc) {
+								all = true
+							}
+							continue
+						}
 						if os.Getenv("WKV_DEBUG_MODS") != "" {
 							fmt.Fprintf(os.Stderr, "mods: unknown effects: dynamic call in %s\n", funcKey(fn))
 						}
@@ -967,6 +998,45 @@ func (x *Exec) collectMods(fn *ssa.Function, blocks map[*ssa.BasicBlock]bool, se
 // contractModKeys: heap keys an assigns clause may touch, derived from the
 // callee body when available.
 func (x *Exec) contractModKeys(c *Contract, cf *ssa.Function) ([]modTarget, bool) {
+	if cf == nil || cf.Blocks == nil {
+		// no body: the assigns clause itself, when it names whole heap components only
+		env := &Env{x: x, pkg: x.prog.typesPkg(c.Pkg), names: map[string]V{}, contract: c}
+		var out []modTarget
+		for _, a := range c.Assigns {
+			e, err := parseCExpr(a)
+			if err != nil {
+				return nil, true
+			}
+			call, ok := e.(*CCall)
+			if !ok {
+				return nil, true
+			}
+			id, ok := call.Fun.(*CIdent)
+			if !ok {
+				return nil, true
+			}
+			args := call.Args
+			switch id.Name {
+			case "pointee":
+				args = args[1:]
+			case "anyobj", "anyelems":
+			default:
+				return nil, true
+			}
+			for _, ta := range args {
+				t, ok := env.tryType(ta)
+				if !ok {
+					return nil, true
+				}
+				if id.Name == "anyelems" {
+					out = append(out, modTarget{key: heapKeySlice(t), t: t})
+				} else {
+					out = append(out, modTarget{key: heapKeyObj(t), t: t})
+				}
+			}
+		}
+		return out, false
+	}
 	if cf != nil && cf.Blocks != nil {
 		seen := map[*ssa.Function]bool{}
 		acc := map[string]modTarget{}
@@ -1089,6 +1159,24 @@ func (x *Exec) havocAssign(env *Env, st *State, src string) {
 					x.havocKeyCall(st, heapKeyObj(t), t)
 				} else {
 					x.havocKeyCall(st, heapKeySlice(t), t)
+				}
+				return
+			case "pointee":
+				// pointee(x, T1, .., Tn): the object x points to when the interface value x
+				// holds a *Ti (what encoding/json's Decode(v) writes: memory reachable from v)
+				v := env.eval(call.Args[0])
+				for _, ta := range call.Args[1:] {
+					t, ok := env.tryType(ta)
+					if !ok {
+						panic(contractError(fmt.Sprintf("assigns %s: unknown type", src)))
+					}
+					pt := types.NewPointer(t)
+					_, unbox := x.boxFuncs(pt)
+					key := heapKeyObj(t)
+					arr := x.heapGet(st, key, t)
+					fresh := x.s.declare("hv_pointee", x.s.sortOf(t))
+					x.assume("true", x.valueInv(st, t, fresh))
+					x.heapSet(st, key, t, ite(fmt.Sprintf("(= (itag %s) %d)", v.S, x.typeID(pt)), "(store "+arr+" ("+unbox+" "+v.S+") "+fresh+")", arr))
 				}
 				return
 			case "all":
